@@ -59,7 +59,7 @@ def make_resolver(mf, table):
     """table: list of (regex on callee text, regex on MIR item name[, pred])"""
     cache = {}
 
-    def resolve(callee):
+    def resolve(callee, nargs=None):
         if callee in cache:
             return cache[callee]
         for ent in table:
@@ -68,5 +68,100 @@ def make_resolver(mf, table):
                 cache[callee] = name
                 return name
         cache[callee] = None
+        return None
+    return resolve
+
+
+def _strip_generics(s):
+    out = ""
+    depth = 0
+    i = 0
+    while i < len(s):
+        c = s[i]
+        if c == "<":
+            depth += 1
+        elif c == ">":
+            depth -= 1
+        elif depth == 0:
+            out += c
+        i += 1
+    return out.replace("::::", "::")
+
+
+def _base_type(t):
+    t = t.strip()
+    while t.startswith("&"):
+        t = t[1:].strip()
+        if t.startswith("mut "):
+            t = t[4:].strip()
+        if t.startswith("'"):
+            t = t.split(" ", 1)[1] if " " in t else t
+    t = _strip_generics(t)
+    return t.split("::")[-1].strip()
+
+
+def generic_resolver(mf, crate_prefixes):
+    """Resolve a call-site path to the MIR item of the crate under test (inherent methods, trait impls on crate
+    types, free functions).  Ambiguity or no match -> None (the executor then reports an unknown callee)."""
+    by_last = {}
+    for name in mf.order:
+        if "::promoted[" in name or not mf.lines[mf.items[name][0]].startswith("fn "):
+            continue
+        last = _strip_generics(name).split("::")[-1]
+        by_last.setdefault(last, []).append(name)
+    cache = {}
+
+    def resolve(callee, nargs=None):
+        key = (callee, nargs)
+        if key in cache:
+            return cache[key]
+        res = _resolve(callee, nargs)
+        cache[key] = res
+        return res
+
+    def _resolve(callee, nargs):
+        c = callee.strip()
+        self_ty = None
+        by_ref = None
+        if c.startswith("<"):
+            m = re.match(r"^<(&?(?:mut )?)([^<>]*?(?:<.*>)?) as ([^>]*?(?:<.*>)?)>::(\w+)(?:::<.*>)?$", c)
+            if not m:
+                return None
+            ty = m.group(2)
+            if not any(ty.startswith(p) or ty == p.rstrip(":") for p in crate_prefixes):
+                return None
+            self_ty = _base_type(ty)
+            by_ref = m.group(1).startswith("&")
+            method = m.group(4)
+        else:
+            flat = _strip_generics(c)
+            segs = [x for x in flat.split("::") if x]
+            if not any(flat.startswith(p) for p in crate_prefixes) and len(segs) > 1:
+                return None
+            method = segs[-1]
+            if len(segs) >= 2 and segs[-2][:1].isupper():
+                self_ty = segs[-2]
+        cands = by_last.get(method, [])
+        out = []
+        for n in cands:
+            f = mf.func(n)
+            if nargs is not None and f.nargs != nargs:
+                continue
+            if self_ty is not None:
+                if f.nargs == 0:
+                    continue
+                p1 = f.locals.get(1, "")
+                if _base_type(p1) != self_ty and "impl at" in n:
+                    # associated function without self (e.g. Type::new): accept when the return type names the type
+                    if self_ty not in f.ret_ty:
+                        continue
+            else:
+                if "impl at" in n:
+                    continue
+            out.append(n)
+        if len(out) > 1 and by_ref is not None:
+            out = [n for n in out if mf.func(n).locals.get(1, "").strip().startswith("&") == by_ref]
+        if len(out) == 1:
+            return out[0]
         return None
     return resolve
